@@ -20,6 +20,9 @@ EXPLANATION = (
     "< parameters at every producer and consumer (declare_function, entry_block, Call, the two fn-pointer types of RotoFunc and the "
     "indirect calls in invoke) and function pointer < out pointer < parameters for runtime trampolines."
 )
+EXPLANATION += (  # round-3 supplement
+    ' A6 every type erasure in List<T> and the value stored by Constant::new is T::Transformed. A7 types Rust passes by pointer are not elided from signatures (known finding). A1 requires exactly repr(u8).'
+)
 ASSUMPTIONS = [
     "rustc's layout_of is the oracle for the layout of the Rust-side types",
     "context field offsets produced by offset_of! inside the proc-macro's quote! template are not resolved code and are not decided",
